@@ -839,4 +839,4 @@ impl AssociationMap {
 
 #[cfg(kani)]
 #[path = "/verif/harness/master_association.rs"]
-mod verif_harness;
+pub(crate) mod verif_harness;
